@@ -287,6 +287,54 @@ impl Drop for TmpDir {
     }
 }
 
+/// C01 / C05 over raw bit patterns (spec/F64Bits.tla): shapes of any doubles through the real constructors,
+/// writer and readers; nothing is abstracted, TLC compares the bytes of every double
+fn raw_events(tr: &mut Trace, r: &mut Rng, t: i32, ncases: usize) {
+    use crate::raw::*;
+    for _ in 0..ncases {
+        let n = 1 + r.below(3);
+        let built = guarded(|| (0..n).map(|_| build_raw(&gen_raw(r, t))).collect::<Vec<Shape>>());
+        let shapes = match built {
+            Ok(s) => s,
+            Err(p) => { tr.run(json!({"ev": "raw", "t": t, "buildPanic": p})); continue; }
+        };
+        let o: Vec<Value> = shapes.iter().map(|s| raw_of(s).to_json()).collect();
+        let (shp, shx) = match write_cursor(&shapes, false) {
+            Ok(x) => x,
+            Err(e) => { tr.run(json!({"ev": "raw", "t": t, "writeFail": e})); continue; }
+        };
+        let hdr: Vec<Value> = match ShapeReader::new(Cursor::new(shp.clone())) {
+            Ok(rd) => { let b = rd.header().bbox; [b.min.x, b.min.y, b.max.x, b.max.y, b.min.z, b.max.z, b.min.m, b.max.m].iter().map(|v| json!(v.to_le_bytes().to_vec())).collect() }
+            Err(_) => vec![],
+        };
+        let items = |v: Result<Result<Vec<Shape>, Error>, String>| match v {
+            Ok(Ok(s)) => json!({"err": "", "items": s.iter().map(|x| raw_of(x).to_json()).collect::<Vec<_>>()}),
+            Ok(Err(e)) => json!({"err": err_json(&e)["err"], "items": []}),
+            Err(_) => json!({"err": "panic", "items": []}),
+        };
+        let mut reads = vec![];
+        let (a, b) = (shp.clone(), shx.clone());
+        let mut x = items(guarded(move || ShapeReader::with_shx(Cursor::new(a), Cursor::new(b)).and_then(|rd| rd.read())));
+        x["route"] = json!("generic-seq-shx");
+        reads.push(x);
+        let a = shp.clone();
+        let mut x = items(guarded(move || for_type!(t, S, { ShapeReader::new(Cursor::new(a)).and_then(|rd| rd.read_as::<S>()).map(|v| v.into_iter().map(Shape::from).collect()) })));
+        x["route"] = json!("typed-seq");
+        reads.push(x);
+        let (a, b) = (shp.clone(), shx.clone());
+        let mut x = items(guarded(move || for_type!(t, S, {
+            ShapeReader::with_shx(Cursor::new(a), Cursor::new(b)).and_then(|mut rd| {
+                let mut v = vec![];
+                for i in 0..n { match rd.read_nth_shape_as::<S>(i) { Some(Ok(s)) => v.push(Shape::from(s)), Some(Err(e)) => return Err(e), None => break } }
+                Ok(v)
+            })
+        })));
+        x["route"] = json!("typed-nth-shx");
+        reads.push(x);
+        tr.run(json!({"ev": "raw", "t": t, "shapes": o, "hdr": hdr, "reads": reads}));
+    }
+}
+
 /// what ShapeReader::header() says about a file the real writer left
 fn header_event(c: &Conc, shp: &[u8]) -> Value {
     match guarded(|| ShapeReader::new(Cursor::new(shp.to_vec())).map(|r| *r.header())) {
@@ -683,6 +731,10 @@ pub fn run(a: &Args) {
                 };
                 id += 1;
                 run_case(&mut tr, &c, &prop, t, &[many_parts], &tmp.0, id);
+            }
+            if prop == "C01" || prop == "C05" || prop == "all" {
+                raw_events(&mut tr, &mut r, t, a.num("raw", 6) as usize);
+                id += a.num("raw", 6) as usize;
             }
             if ch == 1 % chunks && family(t) != "point" {
                 // sizes on and around powers of two, one shape per file
